@@ -46,7 +46,8 @@ def plan(tier, seed):
             if o.get('saliency') == 'zeros':
                 o['saliency'] = 'pos'
             iters = int(pick([1, 2, 3, 5, 8])) if kind != 'cbmm' else int(pick([1, 2, 3]))
-            cases.append(dict(lane='trace', kind=kind, cls=pick(['gauss', 'gauss', 'dup', 'ragged']), K=K, N=N, D=D, lead=lead,
+            cases.append(dict(lane='trace', kind=kind, cls=pick(['gauss', 'gauss', 'dup', 'ragged']), K=K, N=N, D=D, lead=lead, layout=pick(['c', 'c', 'f', 'tview']),
+                              offset=float(pick([0, 0, 1e4, 1e6])) if kind in ('gmm', 'gcacgmm') else 0.0,
                               init=pick(['dirichlet:1', 'dirichlet:0.3', 'blur:0.3', 'onehot']), iters=iters, opts=o, rs=[seed, 9, i]))
             i += 1
     p = S(tier, 10, 100)
@@ -167,7 +168,7 @@ def run_trainer(case, R):
     real = fam in ('gauss', 'diag', 'spher', 'vmf')
     if real:
         y = np.einsum('...ab,...nb->...na', np.linalg.cholesky(gen.hpd(rng, D, cond=10.0, lead=lead, real=True)), rng.standard_normal((*lead, N, D)))
-        y = y + oracles.unit(rng.standard_normal((*lead, 1, D))) * case['spread']
+        y = y + oracles.unit(rng.standard_normal((*lead, 1, D))) * case['spread'] * (1 if case['rs'][-1] % 3 else float(rng.choice([1e3, 1e5, 1e6])))
     else:
         y = np.einsum('...ab,...nb->...na', np.linalg.cholesky(gen.hpd(rng, D, cond=case['spread'] ** 2 + 1, lead=lead)), gen.cnormal(rng, (*lead, N, D)))
     sal = make_saliency(rng, case['saliency'] if fam != 'cacg' else 'none', (*lead, N))
@@ -179,9 +180,11 @@ def run_trainer(case, R):
             ct = {'gauss': 'full', 'diag': 'diagonal', 'spher': 'spherical'}[fam]
             m = d.GaussianTrainer().fit(y, saliency=sal, covariance_type=ct)
             mean, cov = mstep.gaussian(y, g, ct)
+            off = float(np.abs(mean).max() / max(float(np.std(y - mean[..., 0:1, :][..., 0, :][..., None, :])), 1e-300))
+            ctol = 1e-9 + 64 * np.finfo(float).eps * off
             R.check(mon, rel(m.mean, mean[..., 0, :]) <= 1e-10, f'estimator/{fam}/mean', f'Gaussian mean is not the weighted sample mean (rel {rel(m.mean, mean[..., 0, :]):.2e})', **info)
             c = cov[..., 0, :, :] if ct == 'full' else (cov[..., 0, :] if ct == 'diagonal' else cov[..., 0])
-            R.check(mon, rel(m.covariance, c) <= 1e-9, f'estimator/{fam}/covariance', f'Gaussian covariance ({ct}) is not the pooled weighted scatter (rel {rel(m.covariance, c):.2e})', **info)
+            R.check(mon, rel(m.covariance, c) <= ctol, f'estimator/{fam}/covariance', f'Gaussian covariance ({ct}) is not the pooled weighted scatter (rel {rel(m.covariance, c):.2e})', **info)
         elif fam == 'ccsg':
             m = d.ComplexCircularSymmetricGaussianTrainer().fit(y, saliency=sal)
             S = mstep.scatter(y, g)[..., 0, :, :]
